@@ -316,6 +316,8 @@ func (sr *srcRenderer) cond(c any, init any) string {
 		return fmt.Sprintf("r.T(%d)", num(m["id"]))
 	case "cv":
 		return "cv()"
+	case "itn":
+		return "it.MoveNext()"
 	}
 	panic("unknown condition " + canon(m))
 }
@@ -744,6 +746,14 @@ func (sr *srcRenderer) genFunc(name string, prog []any, trailing string) string 
 		prolog += "\tit := D2(r, 3, b)\n\t_ = it\n"
 		if usesKind(prog, "mk2") {
 			prolog += "\tit2 := it\n\t_ = it2\n"
+		}
+	}
+	if strings.Contains(canon(prog), `"k":"itn"`) {
+		// family nilit: the iterator variable holds no iterator
+		if sr.md == coMode {
+			prolog += "\tvar it " + sr.api + "Iter[int]\n"
+		} else {
+			prolog += "\tvar it *rt.NIter\n"
 		}
 	}
 	tailDecl := sr.pkgVarsOf(prog, name)
